@@ -54,3 +54,9 @@ claim("C12",
       "Decides that the password can be evaluated only after the limiter's check reported no block, that check and count use one value that derives only from the TCP peer address, that every failed evaluation increments and every successful one clears the record before the session exists, that a session authenticates only when found and unexpired, that expiry and logout delete it from table and file (table first), that only unexpired sessions are loaded at start, and that both maps are touched only under their locks. "
       "Attempt counting, time windows, clock behaviour and bbolt durability are value/time-level and not decided.",
       "DESIGN.md §5 C12")
+
+claim("C19",
+      "interprocedural backward provenance slice with sha256.Sum256 as sanitiser, constant slice-bound checks, comparison operand types, provenance of cached hash lists (static analysis)",
+      "Decides that nothing derived from the queried host name can reach the message sent to the lookup service except through SHA-256 and a constant-bounded 2-byte prefix slice (plus constants and the configured suffix), that the cache is keyed by the same 2-byte prefixes, that the verdict compares complete 32-byte hashes, that the hash lists written to the cache are exactly the hex-decoded TXT strings of the current response (never filtered, never carried over from an old entry), and that an expired entry cannot decide. "
+      "Label enumeration (four labels, ICANN suffix), malformed TXT handling and cache transparency over arbitrary lookup histories are not decided.",
+      "DESIGN.md §5 C19")
